@@ -1,5 +1,5 @@
 From Coq Require Import ZArith List Bool.
-From RV Require Import Base.Wire Base.Text Lang.Lex Lang.PyLayout Lang.Layout Lang.DispatchSpec.
+From RV Require Import Base.Wire Base.Text Lang.Lex Lang.PyLayout Lang.Layout Lang.DispatchSpec Lang.EmitBlocks.
 Import ListNotations.
 Open Scope Z_scope.
 
@@ -72,6 +72,81 @@ Definition enc_sitem (i : sitem) : wv :=
   | SDef h ns => WL [WI 2; wtext h; WL (map enc_stree ns)]
   end.
 
+
+(* ---- firmware side (Lang/EmitBlocks.v) *)
+Fixpoint dec_ir (v : wv) : option ir :=
+  let fix decs (l : list wv) : option (list ir) :=
+    match l with
+    | [] => Some []
+    | x :: r => match dec_ir x, decs r with Some e, Some es => Some (e :: es) | _, _ => None end
+    end in
+  let fix decb (l : list wv) : option (list (text * list ir)) :=
+    match l with
+    | [] => Some []
+    | WL [c; WL b] :: r =>
+        match un_text c, decs b, decb r with Some c', Some b', Some r' => Some ((c', b') :: r') | _, _, _ => None end
+    | _ => None
+    end in
+  match v with
+  | WL [WI 0; cl] => option_map ILeaf (un_texts cl)
+  | WL [WI 1; WL brs; WL els] =>
+      match decb brs, decs els with Some b, Some e => Some (IIf b e) | _, _ => None end
+  | WL [WI 2; c; WL b] =>
+      match un_text c, decs b with Some c', Some b' => Some (IWhile c' b') | _, _ => None end
+  | WL [WI 3; x; n; WL b] =>
+      match un_text x, un_text n, decs b with Some x', Some n', Some b' => Some (IFor x' n' b') | _, _, _ => None end
+  | WL [WI 4; WL b; WL hs] =>
+      match decs b, decb hs with Some b', Some h' => Some (ITry b' h') | _, _ => None end
+  | _ => None
+  end.
+Fixpoint dec_irs (l : list wv) : option (list ir) :=
+  match l with
+  | [] => Some []
+  | x :: r => match dec_ir x, dec_irs r with Some e, Some es => Some (e :: es) | _, _ => None end
+  end.
+
+Fixpoint enc_ctree (t : ctree) : wv :=
+  match t with
+  | CLine s => WL [WI 0; wtext s]
+  | CBlock h b => WL [WI 1; wtext h; WL (map enc_ctree b)]
+  end.
+Definition enc_ctrees (o : option (list ctree)) : wv := wopt (fun ts => WL (map enc_ctree ts)) o.
+
+Definition enc_pstep (p : pstep) : wv :=
+  match p with
+  | PChain neg own => WL [WI 0; wtexts neg; wopt wtext own]
+  | POther h => WL [WI 1; wtext h]
+  end.
+Definition enc_paths (o : option (list (list pstep * text))) : wv :=
+  wopt (fun ps => WL (map (fun e => WL [WL (map enc_pstep (fst e)); wtext (snd e)]) ps)) o.
+
+(* association tables sent by the harness for the statement layer (not modelled here) *)
+Fixpoint dec_tbl (l : list wv) : option (list (text * list (list text))) :=
+  match l with
+  | [] => Some []
+  | WL [k; WL nodes] :: r =>
+      let fix dn (ns : list wv) : option (list (list text)) :=
+        match ns with
+        | [] => Some []
+        | x :: q => match un_texts x, dn q with Some a, Some b => Some (a :: b) | _, _ => None end
+        end in
+      match un_text k, dn nodes, dec_tbl r with
+      | Some k', Some n', Some r' => Some ((k', n') :: r') | _, _, _ => None end
+  | _ => None
+  end.
+Fixpoint dec_tbl1 (l : list wv) : option (list (text * text)) :=
+  match l with
+  | [] => Some []
+  | WL [k; v] :: r =>
+      match un_text k, un_text v, dec_tbl1 r with
+      | Some k', Some v', Some r' => Some ((k', v') :: r') | _, _, _ => None end
+  | _ => None
+  end.
+Definition look1 (t : list (text * text)) (k : text) : text :=
+  match tlookup k t with Some v => v | None => k end.
+Definition lookn (t : list (text * list (list text))) (k : text) : list (list text) :=
+  match tlookup k t with Some v => v | None => [[k]] end.
+
 Definition enc_span (r : list text * nat) : wv := wok [wtexts (fst r); wnat (snd r)].
 
 Definition run (v : wv) : wv :=
@@ -133,6 +208,29 @@ Definition run (v : wv) : wv :=
       match un_text u, dec_ltops tops, un_texts junk with
       | Some u', Some ts, Some j => wok [wbool (top_layout_ok u' ts j)]
       | _, _, _ => wbad end
+  | WL [WI 14; i; WL ns] =>
+      (* _emit_block on an IR control skeleton: the lines, the guard, the lines read back as C++ *)
+      match un_text i, dec_irs ns with
+      | Some ind, Some irs =>
+          wok [wtexts (emit_list ind irs); wbool (irs_ok irs && is_blank ind);
+               enc_ctrees (c_read (emit_list ind irs)); WL (map enc_ctree (irs_c irs))]
+      | _, _ => wbad end
+  | WL [WI 15; ls] =>
+      (* the SPEC reader of C++ compound statements and the conditions every line runs under *)
+      match un_texts ls with
+      | Some lines => wok [enc_ctrees (c_read lines); enc_paths (fw_paths lines)]
+      | None => wbad end
+  | WL [WI 16; ls; WL t; WL c; WL fv; WL fn; WL ex] =>
+      (* script snippet -> lexical skeleton -> IR -> firmware lines; and what Python's block tree prescribes *)
+      match un_texts ls, dec_tbl t, dec_tbl1 c, dec_tbl1 fv, dec_tbl1 fn, dec_tbl1 ex with
+      | Some lines, Some tS, Some tc, Some tv, Some tn, Some te =>
+          let sk := map erase (parse_lines lines) in
+          let irs := to_ir (lookn tS) (look1 tc) (look1 tv) (look1 tn) (look1 te) sk in
+          wok [wbool (chain_ok (lookn tS) PvNone sk);
+               WL (map enc_ctree (py_cs (lookn tS) (look1 tc) (look1 tv) (look1 tn) (look1 te) sk));
+               wtexts (emit_list s_two irs);
+               enc_ctrees (c_read (emit_list s_two irs))]
+      | _, _, _, _, _, _ => wbad end
   | WL [WI 12; k; c; o] =>
       (* the line-accounting SPEC applied to one observed row: kind index, context index, outcome
          (0 translated, 1 rejected, 2 ignored) -> allowed, known gap, row_ok, row_pinned_ok *)
